@@ -238,6 +238,17 @@ def run(ck, fb, fbd):
                 ck.ok("G.stale", f.loc(n), "%s: call of %s inside the stale window of %s does not read that flag" % (f.name, tgt.pq.split("::")[-1], k["flag"]))
         ck.count("stale_window_calls", n_window)
 
+    # ---------------- renumbering of caches/definitions must not depend on an unrelated kind (shared with C02)
+    from . import lockstep
+    lc = lockstep.Ctx(ck, fb)
+    cores = {}
+    for kind in lockstep.KINDS:
+        cand = [f for f in lc.fns if any(e["cls"] == "erase" and e["kind"] == kind and e["role"] == "def" for e in lc.eff.get(f.id, []))]
+        if len(cand) != 1:
+            raise AnalysisBroken("C12: delete core for %s not unique" % kind)
+        cores[kind] = cand[0]
+    lockstep.corrections(lc, cores)
+
     ck.analysed.update({"functions_scanned": len(fns), "element_access_sites": n_sites, "sites_discharged_locally": n_guarded, "call_sites_checked": n_call_checks,
                         "functions_with_contract": len(contracts), "per_cache_sites": dict(per_cache)})
     ck.floor("caches", len(cm.kinds), 3)
